@@ -38,6 +38,12 @@ and as dict / OrderedDict / dict subclass; besides the charge-conservation oracl
 return the identical result (neutrality:depends-on-dict-insertion-order:*).  35 % of multi-point profiles repeat bit-identical
 (n_e, T_e) pairs with different donor / element density; a later point that received the exact solution of the earlier one is
 keyed profile:repeated-(n_e,T_e)-point-returns-earlier-points-result:*.
+Input kinds: free variables are driven as int64 / int32 / float32 / float64 / non-contiguous arrays, python int / float,
+numpy scalars, length-1 arrays (integer coordinates, functions taking non-integer values there) and n_e / T_e / density
+ndarrays as int64 / float32 / non-contiguous; kinds the unchanged module rejects (1-D list / tuple, 0-d array, tuple of
+lists, list ndarrays) are driven and counted as skip classes.  Besides the recurrence oracle at the float64 point values the
+result must equal the same call on float64 ndarrays (inputs:*:disagrees-with-float64-ndarray-call,
+inputs:function1d:integer-free-variable-truncates, inputs:*:raises-but-float64-ndarray-call-works).
 Mechanism keys: a mismatch on a point solved through scipy's bounded TRF iteration (OptimizeResult.status in {-1,0,1,2},
 seen through a recording wrapper of the module's lsq_linear reference) is keyed solver:*, a result equal to the exact
 no-donor solution while a donor was supplied is keyed tcx-donor-ignored:*, anything else by sub-clause and entry point.
@@ -78,7 +84,7 @@ THOROUGH = dict(cases=26000, workers=16, timecap=600)
 REQUIRED = {"fractions": 5000, "balance": 5000, "sum_range": 500, "densities": 1500, "neutrality": 150, "cross_entry": 1000,
             "interp_nodes": 2000, "eqmap_points": 1000, "contract_evals": 1000, "donor_sensitive": 80,
             "sequence_steps": 100, "sequence_repeat": 20, "mixed_donor_points": 40, "dict_order_pairs": 15,
-            "repeated_point_pairs": 30}
+            "repeated_point_pairs": 30, "input_kind_pairs": 60}
 
 EPS = 2.220446049250313e-16
 CF = 200.0
@@ -151,6 +157,45 @@ def _gen_order(rng, nz):
         k = int(rng.integers(nz))
         keys = [q for q in keys if q != k] + [k]
     return {"keys": keys, "container": ["dict", "OrderedDict", "subclass"][int(rng.integers(3))]}
+
+
+FV_INT = ("int64", "int32", "pyint", "np.int64", "len1-int")
+FV_REJECTED = ("list", "tuple", "0d", "lists")      # probed on the unchanged module: AttributeError / TypeError
+ARR_REJECTED = ("list",)                            # ValueError
+
+
+def _pick(rng, names, p):
+    p = np.array(p, dtype=float)
+    return names[int(rng.choice(len(names), p=p / p.sum()))]
+
+
+def _gen_input_kinds(rng, rep, shape, single, iseq, fam, ne, te, nd, nel):
+    intgrid = bool((not iseq) and rep not in ("scalar", "npscalar") and rng.random() < 0.5)
+    if rep in ("scalar", "npscalar"):
+        fk = {"kind": "none"}
+    elif single is not None:
+        fk = {"kind": _pick(rng, ["pyint", "np.int64", "len1-int", "np.float32", "pyfloat", "len1-float", "0d"], [3, 1.5, 1.5, 1, 1, 1, 1])
+              if intgrid else _pick(rng, ["pyfloat", "len1-float", "0d"], [6, 2, 1.5])}
+    elif len(shape) == 1:
+        fk = {"kind": _pick(rng, ["int64", "int32", "float32", "float64", "noncontig", "list", "tuple"], [3, 1.5, 1.5, 1, 1, 0.7, 0.7])
+              if (intgrid and not iseq) else _pick(rng, ["float64", "noncontig", "list", "tuple"], [6, 2, 0.7, 0.7] if not iseq else [1, 0, 0, 0])}
+    else:
+        comp = ["int64", "int32", "float32", "float64", "noncontig"] if intgrid else ["float64", "noncontig"]
+        fk = {"kind": "lists" if rng.random() < 0.08 else "arrays", "comp": [comp[int(rng.integers(len(comp)))] for _ in range(2)]}
+    fk["intgrid"] = intgrid
+    # ndarray dtypes (only used by parameters passed as ndarray); at most one of n_e / n_D is float32 (their ratio would
+    # otherwise be formed in single precision), float32 n_e is not used for neutrality matching (n_e - charge in float32)
+    dt = {}
+    for name, v in (("ne", ne), ("te", te), ("nd", nd), ("nel", nel)):
+        k = _pick(rng, ["float64", "int64", "float32", "noncontig", "list"], [6, 1.5, 1.5, 1, 0.4])
+        if k == "int64" and not (np.all((v >= 1) | (v == 0)) and np.max(v) < 9e18):
+            k = "float64"
+        if k == "float32" and ((name in ("ne", "nd") and fam == "match") or (name == "nd" and dt.get("ne") == "float32")):
+            k = "float64"
+        if iseq and k == "list":
+            k = "float64"
+        dt[name] = k
+    return fk, dt
 
 
 def gen_case(rng, tier, entry=None, rep=None):
@@ -262,7 +307,13 @@ def gen_case(rng, tier, entry=None, rep=None):
             sp["kind"] = "dict_array" if sp["kind"] == "dict_func" else sp["kind"]
         elif rep in ("func1d_scalar", "mixed0d"):
             sp["kind"] = "dict_func"
-    case = dict(entry=entry, rep=rep, Z=Z, par=par, donor=donor, shape=shape, single=single, x=x, y=y,
+    # ---- free-variable kinds and ndarray dtypes (what the unchanged module accepts was probed; see FV_REJECTED) --------
+    fvkind, dtypes = _gen_input_kinds(rng, rep, shape, single, iseq, fam, ne, te, nd, nel)
+    if fvkind["intgrid"]:        # integer coordinates: exactly representable in every kind; values at them are non-integer
+        x = np.cumsum(np.concatenate([[int(rng.integers(-3, 6))], rng.integers(1, 4, shape[0] - 1)])).astype(float).tolist()
+        if len(shape) == 2:
+            y = np.cumsum(np.concatenate([[int(rng.integers(-3, 6))], rng.integers(1, 4, shape[1] - 1)])).astype(float).tolist()
+    case = dict(entry=entry, rep=rep, Z=Z, par=par, donor=donor, shape=shape, single=single, x=x, y=y, fvkind=fvkind, dtypes=dtypes,
                 ne=ne.tolist(), te=te.tolist(), nd=nd.tolist(), nel=nel.tolist(), species=species, over_neutral=over,
                 kinds=kinds, flav=flav, fv_as_list=bool(rng.random() < 0.3), pass_fv=bool(rng.random() < 0.5))
     if iseq:
@@ -451,9 +502,50 @@ def _eval_func(f, xs, ys, single):
     return np.array([f(*p) for p in pts], dtype=float)
 
 
-def _build_param(kind, flav, vals_flat, shape, xs, ys, single):
+def _as_dtype(grid, dt):
+    """ndarray of the requested dtype / layout; returns (object, float64 values the module must see)."""
+    if dt == "int64":
+        a = np.trunc(grid).astype(np.int64)
+    elif dt == "float32":
+        a = grid.astype(np.float32)
+    elif dt == "noncontig":
+        a = np.repeat(grid, 2, axis=-1)[..., ::2]
+        assert not a.flags["C_CONTIGUOUS"] or a.size <= 1
+    elif dt == "list":
+        return grid.tolist(), grid.ravel().copy()
+    else:
+        a = grid.copy()
+    return a, a.astype(float).ravel().copy()
+
+
+def _make_fv1(kind, v):
+    v = np.asarray(v, dtype=float)
+    if kind == "int64":
+        return v.astype(np.int64)
+    if kind == "int32":
+        return v.astype(np.int32)
+    if kind == "float32":
+        return v.astype(np.float32)
+    if kind == "noncontig":
+        return np.repeat(v, 2)[::2]
+    if kind == "list":
+        return v.tolist()
+    if kind == "tuple":
+        return tuple(v.tolist())
+    return v.copy()
+
+
+def _make_fv0(kind, x):
+    return {"pyint": lambda: int(x), "np.int64": lambda: np.int64(x), "len1-int": lambda: np.array([int(x)]),
+            "np.float32": lambda: np.float32(x), "pyfloat": lambda: float(x), "len1-float": lambda: np.array([float(x)]),
+            "0d": lambda: np.array(float(x))}[kind]()
+
+
+def _build_param(kind, flav, vals_flat, shape, xs, ys, single, dtype="float64"):
     """returns (object passed to the code, values at the evaluated points as the code must see them)."""
     grid = np.asarray(vals_flat, dtype=float).reshape(shape)
+    if kind == "array" and dtype != "float64":
+        return _as_dtype(grid, dtype)
     if kind == "scalar":
         v = float(grid.flat[single])
         return v, np.array([v])
@@ -676,8 +768,9 @@ def run_case(case, ctx):
         v = np.asarray(case[name], dtype=float)
         return v[:n] if iseq else v
 
-    in_ne, ne = _build_param(case["kinds"]["ne"], case["flav"]["ne"], vals("ne"), shape, xs, ys, single)
-    in_te, te = _build_param(case["kinds"]["te"], case["flav"]["te"], vals("te"), shape, xs, ys, single)
+    dts = case.get("dtypes") or {}
+    in_ne, ne = _build_param(case["kinds"]["ne"], case["flav"]["ne"], vals("ne"), shape, xs, ys, single, dtype=dts.get("ne", "float64"))
+    in_te, te = _build_param(case["kinds"]["te"], case["flav"]["te"], vals("te"), shape, xs, ys, single, dtype=dts.get("te", "float64"))
     npts = ne.size
     dkw = {}
     dargs = (None, None, 0)
@@ -689,12 +782,12 @@ def run_case(case, ctx):
         if donor["mode"] == "none_density":
             in_nd = None
         else:
-            in_nd, nd = _build_param(case["kinds"]["nd"], case["flav"]["nd"], vals("nd"), shape, xs, ys, single)
+            in_nd, nd = _build_param(case["kinds"]["nd"], case["flav"]["nd"], vals("nd"), shape, xs, ys, single, dtype=dts.get("nd", "float64"))
         dargs = (del_, in_nd, donor["charge"])
         dkw = dict(tcx_donor=del_, tcx_donor_n=in_nd, tcx_donor_charge=donor["charge"])
     nel = None
     if fam == "from":
-        in_nel, nel = _build_param(case["kinds"]["nel"], case["flav"]["nel"], vals("nel"), shape, xs, ys, single)
+        in_nel, nel = _build_param(case["kinds"]["nel"], case["flav"]["nel"], vals("nel"), shape, xs, ys, single, dtype=dts.get("nel", "float64"))
     in_species, species_seen, in_species_asc = [], [], []
     if fam == "match":
         for sp in case["species"]:
@@ -705,9 +798,9 @@ def run_case(case, ctx):
             in_species_asc.append(_build_species(sp2, shape, xs, ys, single, ascending=True)[0])
             if isinstance(o, dict):
                 ctx.cls("species-dict:%s" % ("ascending" if list(o) == sorted(o) else "non-ascending"))
-    anyfunc = any(not isinstance(o, (float, np.ndarray)) for o in (in_ne, in_te, dargs[1]) if o is not None)
+    anyfunc = any(not isinstance(o, (float, np.ndarray, list)) for o in (in_ne, in_te, dargs[1]) if o is not None)
     if fam == "from":
-        anyfunc = anyfunc or not isinstance(in_nel, (float, np.ndarray))
+        anyfunc = anyfunc or not isinstance(in_nel, (float, np.ndarray, list))
     if fam == "match":
         anyfunc = anyfunc or any(sp["kind"] == "dict_func" for sp in case["species"])
     # free variable
@@ -719,7 +812,36 @@ def run_case(case, ctx):
         fv = [np.array(xs, dtype=float), np.array(ys, dtype=float)]
         if not case["fv_as_list"]:
             fv = tuple(fv)
+    fv64 = fv
+    fk = case.get("fvkind") or {"kind": "none"}
+    if fv is not None and not iseq:
+        if single is not None:
+            fv = _make_fv0(fk["kind"], xs[single]) if fk["kind"] != "none" else fv
+        elif len(shape) == 1:
+            fv = _make_fv1(fk["kind"], xs)
+        else:
+            comps = [_make_fv1(fk["comp"][0], xs), _make_fv1(fk["comp"][1], ys)]
+            if fk["kind"] == "lists":
+                comps = [c.tolist() for c in comps]
+            fv = comps if case["fv_as_list"] else tuple(comps)
     fv_pass = fv if (anyfunc or case["pass_fv"] or entry.startswith("interpolators") or iseq) else None
+    fv_used = fv_pass is not None and (anyfunc or entry.startswith("interpolators"))
+    fv_label = (fk["kind"] if "comp" not in fk else fk["kind"] + ":" + "/".join(fk["comp"])) if fv_used else "unused"
+    arr_dts = sorted(set(dts.get(q, "float64") for q, o in (("ne", in_ne), ("te", in_te), ("nd", dargs[1]),
+                                                           ("nel", in_nel if fam == "from" else None))
+                         if isinstance(o, (np.ndarray, list)) and case["kinds"][q] == "array"))
+    rejected = None
+    if fv_pass is not None and not iseq and (fk["kind"] in FV_REJECTED):   # (a list is tolerated when no function needs it)
+        rejected = "free-variable:" + fk["kind"]
+    elif any(d in ARR_REJECTED for d in arr_dts):
+        rejected = "ndarray:list"
+    alt_inputs = (fv_used and fv_label not in ("float64", "pyfloat", "arrays:float64/float64")) or any(d != "float64" for d in arr_dts)
+    ctx.cls("fv:" + fv_label)
+    for d_ in arr_dts:
+        ctx.cls("array-dtype:" + d_)
+    fdim = "function2d" if len(shape) == 2 else "function1d"
+    in_label = ("%s:%s-free-variable" % (fdim, fv_label)) if (fv_used and fv_label not in ("float64", "pyfloat", "arrays:float64/float64")) \
+        else "ndarray:" + "+".join(arr_dts)
 
     # ---- oracle -----------------------------------------------------------------------------------------------------
     if not (np.all(ne > 0) and np.all(te > 0) and np.all(nd >= 0) and np.all(np.isfinite(ne + te + nd))):
@@ -732,6 +854,33 @@ def run_case(case, ctx):
     mixed_profile = bool(dkey is not None and np.any(nd > 0) and np.any(nd == 0))
     if len(set(zip(ne.tolist(), te.tolist()))) < npts:
         ctx.cls("profile:coinciding-points")
+
+    def equiv_call():
+        """the same entry point on plain float64 ndarrays holding the point values (None when not applicable)."""
+        esh = list(shape) if single is None else [1]
+        adq = M.make_atomic_data(par)
+        a_ne, a_te = ne.reshape(esh).copy(), te.reshape(esh).copy()
+        dq = (None, None, 0)
+        if donor is not None:
+            dq = (dargs[0], None if donor["mode"] == "none_density" else nd.reshape(esh).copy(), dargs[2])
+        spq = [sq.reshape([sq.shape[0]] + esh).copy() for sq in species_seen]
+        if entry == "fractional_abundance":
+            return _stack(ib.fractional_abundance(adq, el, a_ne, a_te, *dq), Z)
+        if entry == "from_elementdensity":
+            return _stack(ib.from_elementdensity(adq, el, nel.reshape(esh).copy(), a_ne, a_te, *dq), Z)
+        if entry == "match_plasma_neutrality":
+            return _stack(ib.match_plasma_neutrality(adq, el, spq, a_ne, a_te, *dq), Z)
+        if entry.startswith("interpolators"):
+            args = [a_ne, a_te] if fam == "fractional" else ([nel.reshape(esh).copy(), a_ne, a_te] if fam == "from" else [spq, a_ne, a_te])
+            rq = getattr(ib, entry)(adq, el, fv64, *args, *dq)
+            ptsq = [(x,) for x in xs] if len(shape) == 1 else [(x, y) for x in xs for y in ys]
+            return np.array([[rq[z](*p_) for p_ in ptsq] for z in range(Z + 1)])
+        if entry == "_fractional_abundance(coef_*)":
+            cxq = ib.get_rates_tcx(adq, dargs[0], dargs[2], el) if donor is not None else None
+            return np.asarray(ib._fractional_abundance(adq, el, a_ne, a_te, dargs[0], nd.reshape(esh).copy(), dargs[2],
+                                                       coef_ion=ib.get_rates_ionisation(adq, el), coef_recom=ib.get_rates_recombination(adq, el),
+                                                       coef_tcx=cxq), dtype=float).reshape(Z + 1, -1)
+        return None
 
     ad = M.make_atomic_data(par)
     n0 = len(C.STATE["lsq"])
@@ -817,10 +966,30 @@ def run_case(case, ctx):
             ctx.viol("contract:%s:%s" % (e.fn, e.clause), "postcondition of %s failed: %s" % (e.fn, e.clause), entry=entry, Z=Z,
                      lsq_status=st)
         return
+    except Exception as exc:  # noqa  -- only for non-default input kinds; anything else propagates (framework reports it)
+        if rejected is not None and isinstance(exc, (TypeError, AttributeError, ValueError, IndexError)):
+            ctx.skip("input kind rejected by the module (as on the unchanged tree): " + rejected)
+            ctx.cls("rejected:" + rejected)
+            return
+        if not alt_inputs:
+            raise
+        try:
+            ok_equiv = equiv_call() is not None
+        except Exception:  # noqa
+            ok_equiv = False
+        if not ok_equiv:
+            raise
+        ctx.mon("input_kind_pairs")
+        ctx.viol("inputs:%s:raises-but-float64-ndarray-call-works" % in_label,
+                 "the call raises %s for this input kind while the same point values passed as float64 ndarrays are processed: %s"
+                 % (type(exc).__name__, str(exc)[:200]), entry=entry, rep=rep, kinds=case["kinds"], dtypes=dts, fvkind=fk)
+        return
     st = C.STATE["lsq"][n0:]
     del C.STATE["lsq"][:max(0, len(C.STATE["lsq"]) - 64)]
     statuses = st[:npts] if len(st) == npts else [None] * npts
     ctx.mon("rate_evaluations", ad.n_eval)
+    if rejected is not None:
+        ctx.cls("tolerated:" + rejected)
 
     # ---- which oracle column corresponds to which returned column ----------------------------------------------------
     if cols is None or not iseq:
@@ -872,6 +1041,33 @@ def run_case(case, ctx):
                          insertion_orders=[list(o) for o in in_species if isinstance(o, dict)],
                          containers=[type(o).__name__ for o in in_species if isinstance(o, dict)],
                          max_rel_diff=float(np.max(np.abs(got - got2) / (np.abs(got2) + 1e-300))) if got2.shape == got.shape else None)
+
+    # ---- input kinds: integer / float32 / non-contiguous free variables and ndarrays must give what float64 ndarrays give --
+    if alt_inputs and rejected is None and not order_dependent:
+        try:
+            gq = equiv_call()
+        except (C.SolverNonTermination, C.ContractViolation):
+            gq = None
+        del C.STATE["lsq"][:max(0, len(C.STATE["lsq"]) - 64)]
+        if gq is not None and gq.shape == got.shape:
+            ctx.mon("input_kind_pairs")
+            if not np.allclose(got, gq, rtol=1e-9, atol=1e-12 * float(np.max(np.abs(gq))), equal_nan=True):
+                key = "inputs:%s:disagrees-with-float64-ndarray-call" % in_label
+                what = "the result differs from the same call with the point values passed as float64 ndarrays"
+                int_fv = fv_used and (fk["kind"] in FV_INT or any(c in FV_INT for c in fk.get("comp", [])))
+                if int_fv and fam != "match" and np.all(np.isfinite(got)) and np.all(got.sum(axis=0) > 0):
+                    # are the sampled function values truncated to integers?
+                    tr = {q: (np.trunc(v) if case["kinds"][q] == "func" else v) for q, v in (("ne", ne), ("te", te), ("nd", nd))}
+                    if np.all(tr["ne"] >= 1) and np.all(tr["te"] >= 1):
+                        Ot = [_oracle_point(elname, Z, par, float(tr["ne"][i]), float(tr["te"][i]), dkey, float(tr["nd"][i])) for i in cols]
+                        if all(_point_ok(got[:, j] / got[:, j].sum(), Ot[j], Z, SLACK_COEF if returns_functions else 0.0, check_sum=False)
+                               for j in range(len(cols))):
+                            key = "inputs:%s:integer-free-variable-truncates" % fdim
+                            what = ("with an integer-typed free variable the function values sampled on it are truncated to "
+                                    "integers before the balance is solved")
+                ctx.viol(key, what, entry=entry, rep=rep, kinds=case["kinds"], dtypes=dts, fvkind=fk,
+                         max_rel_diff=float(np.nanmax(np.abs(got - gq) / (np.abs(gq) + 1e-300))))
+                return
 
     col_slack = {}
     for j, i in enumerate(cols):
